@@ -249,6 +249,9 @@ func synthLog(r *hx.Rand, base, R int) (tiles []logEntry, variants []logEntry) {
 
 func main() {
 	c := hx.Start("C01", "Run.Check_C01", 160)
+	// hx.NewRand(seed) has state seed*C+k, and every draw adds C: the streams of seeds 1, 2, 3 are the
+	// same stream shifted by one draw and re-synchronise. Re-seed from a mixed output instead.
+	c.Rng = hx.NewRand(c.Rng.U64() ^ 0x5bd1e995c3a7f1d3)
 	runOne := func(kind string, h Hist) {
 		c.Obs.Evaluations++
 		c.Count(fmt.Sprintf("%s:ops=%d", kind, len(h.Ops)/5*5))
